@@ -326,6 +326,21 @@ def r2_order(ctx):
                 break
     ctx.check(good, f, nr if nr is not None else f.node, "add_missing_cands appends the unlisted candidates as one last tied group", astx.u(nr)[:100] if nr is not None else "",
               "unlisted candidates are not appended as a single final group (only when there are any)")
+    # ... and every ranked ballot goes through that completion: nothing but "has a ranking" decides whether the ballot is
+    # rebuilt (a shortcut that keeps a ballot as it is must prove that nobody is missing, which a count of mentions does not)
+    if ctor:
+        Nc = Normalizer(f.node, inline=False)
+        lits = literals(Nc.conj(astx.path_condition(f.node, ctor[0], pmf)))
+        extra = {l for l in lits if not re.fullmatch(r"truthy\(\w+\.ranking\)", l)}
+        # "somebody is missing", tested on the difference set itself, is the one sound shortcut
+        for l in list(extra):
+            mm = re.fullmatch(r"truthy\((\w+)\)|not eq\(len\((\w+)\), 0\)", l)
+            nm_ = (mm.group(1) or mm.group(2)) if mm else None
+            md_ = astx.unique_def(f.node, nm_) if nm_ else None
+            if md_ is not None and re.fullmatch(r"\w+\.difference\(\w+\)|\w+ - \w+", astx.u(md_)):
+                extra.discard(l)
+        ctx.check(not extra, f, ctor[0], "add_missing_cands completes every ranked ballot (no shortcut past the completion)", "",
+                  f"the completed ballot is built only under {sorted(extra)}: other ballots are kept as they are without showing that no candidate is missing")
     if total < 5:
         ctx.vanished("order-pipeline sinks" + ": " + f"only {total} rebuilt rankings found")
 
@@ -631,6 +646,7 @@ _RC_SKIP = """    scrubbed_ballots = list(ballots)
 _RC_REGION = ("    scrubbed_ballots = [Ballot()] * len(ballots)\n", "        new_ranking = []\n        new_scores = {}\n        if ballot.ranking:\n            for s in ballot.ranking:\n                new_s = []")
 FAULTS = [
     ("untouched ballots skipped, blank ones too (seeded C12-r2-1)", [(UT, _RC_REGION, _RC_SKIP % "set(removed).isdisjoint({c for s in ballot.ranking or () for c in s}.union(ballot.scores or ()))")], "C12.R4"),
+    ("add_missing keeps a ballot with as many mentions as candidates", [(UT, "            raise TypeError(\"Ballots must have rankings.\")\n        else:\n            b_cands = [c for s in ballot.ranking for c in s]", "            raise TypeError(\"Ballots must have rankings.\")\n        elif sum(len(s) for s in ballot.ranking) == len(candidates):\n            new_ballots[i] = ballot\n        else:\n            b_cands = [c for s in ballot.ranking for c in s]")], "C12.R2"),
     ("remove keeps the removed", [(UT, "                    if c not in removed:\n                        new_s.append(c)", "                    if c in removed:\n                        new_s.append(c)")], "C12.R1"),
     ("scores keep the removed", [(UT, "c: score for c, score in ballot.scores.items() if c not in removed", "c: score for c, score in ballot.scores.items() if c in removed")], "C12.R1"),
     ("sorted new ranking", [(UT, "                ranking=tuple(new_ranking), weight=ballot.weight, scores=new_scores", "                ranking=tuple(sorted(new_ranking, key=len)), weight=ballot.weight, scores=new_scores")], "C12.R2"),
